@@ -174,6 +174,7 @@ for _n, _tier, _T in ((1, "quick", 60), (2, "quick", 200), (3, "thorough", 900))
 
 # P4: corpus neighbourhood - windows cut from /repo's own sources, one symbolic code point substituted or inserted ----------------------
 import glob as _glob  # noqa: E402
+from chx.ob import REPO as _REPO  # noqa: E402
 import os as _os  # noqa: E402
 import random as _random  # noqa: E402
 
@@ -185,7 +186,7 @@ FEATURES = (("decorator", "@"), ("triple_dq", '"""'), ("continuation", "\\\n"), 
 def _windows(limit=72):
     """first window (whole lines, <= limit chars) showing each lexical feature, taken in sorted file order from the current tree"""
     out = {}
-    files = sorted(f for f in _glob.glob("/repo/cdd/**/*.py", recursive=True) if "/tests/" not in f)
+    files = sorted(f for f in _glob.glob(_REPO + "/cdd/**/*.py", recursive=True) if "/tests/" not in f)
     for feat, needle in FEATURES:
         for fn in files:
             try:
@@ -200,7 +201,7 @@ def _windows(limit=72):
                     w += lines[j] + "\n"
                     j += 1
                 if needle in w and len(w) > 20:
-                    hit = (fn[len("/repo/"):], i + 1, w)
+                    hit = (fn[len(_REPO) + 1:], i + 1, w)
                     break
             if hit:
                 out[feat] = hit
